@@ -31,6 +31,13 @@ reverse_call: `l_d, u_d = domain`                     ld, ud : Option Rat     (N
                                                       assign the two names; they must be brentq's bracket
 docstrings, comments                                  ignored
 anything else                                         TranslationError -> obligation broken
+
+Two further translators in this file carry their own tables next to their code:
+`BSpline2D.__call__` (nested accumulation loops -> `Gen/BSpline2D.lean`, `spline2dGen_eq_model` against
+`C20.spline2d`) and the fit-cache decision of `CSVLookupTableMixin.pre` (`valid_cache`, the guards of every
+recomputation and of the final save -> `Gen/FitCache.lean`, `validCacheGen_eq_model` /
+`recomputeGen_eq_model` against `C20.validCache`, the function `cache_reuse_iff_newer`, `pre_serves_current`
+and `served_is_current` are about).
 """
 import ast
 import os
@@ -58,7 +65,9 @@ def _is_doc(st):
 class _Tr:
     """symbolic execution of a small numeric kernel; values are strings of Lean terms"""
 
-    def __init__(self, knots, last, kterm, names, rec=None, attrs=None):
+    def __init__(self, knots, last, kterm, names, rec=None, attrs=None, xname="x", lens=None):
+        self.xname = xname      # python name of the evaluation point handed to self.basis
+        self.lens = lens or {}  # knot attribute -> Lean term of its length (for `len(self.__t) - self.__k - 1`)
         self.knots = knots      # python names of the knot vector -> Lean function name
         self.last = last        # Lean term for t[-1]
         self.kterm = kterm      # Lean term for `k` (None: k must not occur)
@@ -84,6 +93,11 @@ class _Tr:
             return self.attrs[n.attr][1]
         if isinstance(n, ast.BinOp) and isinstance(n.op, ast.Add):
             return "(%s + %s)" % (self.nat(n.left), self.nat(n.right))
+        if isinstance(n, ast.BinOp) and isinstance(n.op, ast.Mult) and self.lens:
+            return "(%s * %s)" % (self.nat(n.left), self.nat(n.right))
+        cnt = _count_term(n, self.attrs, self.lens) if self.lens else None
+        if cnt is not None:
+            return cnt
         raise TranslationError("unsupported index expression " + ast.dump(n)[:100])
 
     def vec(self, n):
@@ -133,8 +147,8 @@ class _Tr:
         a0, a1, a2, a3 = args
         if self.vec(a0)[0] != "knots":
             raise TranslationError("first argument of self.basis is not the knot vector")
-        if not (isinstance(a1, ast.Name) and a1.id == "x"):
-            raise TranslationError("second argument of self.basis is not x")
+        if not (isinstance(a1, ast.Name) and a1.id == self.xname):
+            raise TranslationError("second argument of self.basis is not " + self.xname)
         if kprev is not None:
             # inside `basis`: the order argument must be exactly `k - 1` (structural recursion)
             if not (isinstance(a2, ast.BinOp) and isinstance(a2.op, ast.Sub) and isinstance(a2.left, ast.Name)
@@ -206,9 +220,26 @@ class _Tr:
         return None
 
     def fork(self):
-        f = _Tr(self.knots, self.last, self.kterm, self.names, self.rec, self.attrs)
+        f = _Tr(self.knots, self.last, self.kterm, self.names, self.rec, self.attrs, self.xname, self.lens)
         f.env = dict(self.env)
         return f
+
+
+def _count_term(e, attrs, lens):
+    """`len(self.<knots>) - self.<order> - 1`  ->  `(n - k - 1)`; None when `e` is not of that shape"""
+    ok = (isinstance(e, ast.BinOp) and isinstance(e.op, ast.Sub) and isinstance(e.right, ast.Constant) and e.right.value == 1
+          and not isinstance(e.right.value, bool) and isinstance(e.left, ast.BinOp) and isinstance(e.left.op, ast.Sub))
+    if not ok:
+        return None
+    ln, kk = e.left.left, e.left.right
+    ok = (isinstance(ln, ast.Call) and isinstance(ln.func, ast.Name) and ln.func.id == "len" and len(ln.args) == 1
+          and isinstance(ln.args[0], ast.Attribute) and isinstance(ln.args[0].value, ast.Name) and ln.args[0].value.id == "self"
+          and attrs.get(ln.args[0].attr, ("",))[0] == "knots" and attrs[ln.args[0].attr][1] in lens
+          and isinstance(kk, ast.Attribute) and isinstance(kk.value, ast.Name) and kk.value.id == "self"
+          and attrs.get(kk.attr, ("",))[0] == "nat")
+    if not ok:
+        return None
+    return "(%s - %s - 1)" % (lens[attrs[ln.args[0].attr][1]], attrs[kk.attr][1])
 
 
 def translate_basis():
@@ -482,3 +513,466 @@ def gen_reverse_domain(c):
             f.write(text)
         os.replace(tmp, path)
     return [("RtcVerif.Gen.ReverseDomain", "RtcVerif.Gen", ["revDomainGen_eq_model"])]
+
+
+# ---------------------------------------------------------------------------------------------
+# BSpline2D.__call__: the tensor-product evaluation (nested accumulation loops)
+#
+#   z = 0.0
+#   for i in range(len(self.__tx) - self.__kx - 1):          C20.sumN (nx - kx - 1) (fun i =>
+#       bx = <rat expr>                                        (local of the outer body)
+#       for j in range(len(self.__ty) - self.__ky - 1):        C20.sumN (ny - ky - 1) (fun j =>
+#           by = <rat expr>
+#           z += <rat expr over w, bx, by>                        term))
+#   return z
+#
+# extra table entries (only here): index products `a * b`, `len(self.__ty) - self.__ky - 1` as an index
+# term `(ny - ky - 1)`, `self.basis(self.__tx, x, self.__kx, i)` -> `basisGen tx (tx (nx - 1)) x kx i`
+# (and the same with ty / y / ky).  A doubly nested `z += e` over two `range` loops is read as the double
+# sum (trusted table entry: the accumulator is touched by nothing else).
+
+
+def _range_count(it, attrs, lens):
+    if not (isinstance(it, ast.Call) and isinstance(it.func, ast.Name) and it.func.id == "range" and len(it.args) == 1
+            and not it.keywords):
+        raise TranslationError("loop iterator is not range(<count>)")
+    cnt = _count_term(it.args[0], attrs, lens)
+    if cnt is None:
+        raise TranslationError("loop range is not range(len(t) - k - 1)")
+    return cnt
+
+
+def translate_call2d():
+    path = os.path.join(REPO, "src", "rtctools", "data", "interpolation", "bspline2d.py")
+    tree = ast.parse(open(path).read())
+    init = _find_method(tree, "BSpline2D", "__init__")
+    if [a.arg for a in init.args.args] != ["self", "tx", "ty", "w", "kx", "ky"]:
+        raise TranslationError("unexpected signature of BSpline2D.__init__")
+    stores = {}
+    for st in init.body:
+        if _is_doc(st):
+            continue
+        if isinstance(st, ast.Assign) and len(st.targets) == 1 and isinstance(st.targets[0], ast.Attribute) \
+                and isinstance(st.targets[0].value, ast.Name) and st.targets[0].value.id == "self" and isinstance(st.value, ast.Name):
+            stores[st.targets[0].attr] = st.value.id
+        else:
+            raise TranslationError("unsupported statement in BSpline2D.__init__")
+    kinds = {"tx": ("knots", "tx"), "ty": ("knots", "ty"), "w": ("vec", "w"), "kx": ("nat", "kx"), "ky": ("nat", "ky")}
+    attrs = {attr: kinds[arg] for attr, arg in stores.items()}
+    if sorted(v[1] for v in attrs.values()) != sorted(v[1] for v in kinds.values()):
+        raise TranslationError("BSpline2D.__init__ does not store each argument once")
+    lens = {"tx": "nx", "ty": "ny"}
+    fn = _find_method(tree, "BSpline2D", "__call__")
+    if [a.arg for a in fn.args.args] != ["self", "x", "y"]:
+        raise TranslationError("unexpected signature of BSpline2D.__call__")
+    body = [st for st in fn.body if not _is_doc(st)]
+    if len(body) != 3:
+        raise TranslationError("BSpline2D.__call__ is not `z = 0.0; for …; return z`")
+    s0, outer, ret = body
+    if not (isinstance(s0, ast.Assign) and len(s0.targets) == 1 and isinstance(s0.targets[0], ast.Name)
+            and isinstance(s0.value, ast.Constant) and s0.value.value == 0.0 and not isinstance(s0.value.value, bool)):
+        raise TranslationError("accumulator is not initialised with 0.0")
+    acc = s0.targets[0].id
+    if not (isinstance(ret, ast.Return) and isinstance(ret.value, ast.Name) and ret.value.id == acc):
+        raise TranslationError("the accumulator is not what is returned")
+    if not (isinstance(outer, ast.For) and isinstance(outer.target, ast.Name) and not outer.orelse):
+        raise TranslationError("unsupported outer loop")
+    ivar = outer.target.id
+    n_outer = _range_count(outer.iter, attrs, lens)
+    obody = [st for st in outer.body if not _is_doc(st)]
+    if not obody or not isinstance(obody[-1], ast.For):
+        raise TranslationError("the outer loop does not end with the inner loop")
+    inner = obody[-1]
+    if not (isinstance(inner.target, ast.Name) and not inner.orelse):
+        raise TranslationError("unsupported inner loop")
+    jvar = inner.target.id
+    if len({ivar, jvar, acc}) != 3 or {ivar, jvar, acc} & {"x", "y", "tx", "ty", "w", "kx", "ky", "nx", "ny"}:
+        raise TranslationError("loop variable / accumulator shadows another name")
+    n_inner = _range_count(inner.iter, attrs, lens)
+    names = {"x": ("x", "rat"), "y": ("y", "rat"), ivar: (ivar, "nat"), jvar: (jvar, "nat")}
+
+    def tr_for(kn, pt):
+        # a translator whose `self.basis` calls must be on knot vector `kn` at point `pt`
+        a = {k: v for k, v in attrs.items() if v[0] != "knots" or v[1] == kn}
+        return _Tr({}, "%s (%s - 1)" % (kn, lens[kn]), None, names,
+                   rec=("basisGen %s (%s (%s - 1)) %s" % (kn, kn, lens[kn], pt), None), attrs=a, xname=pt, lens=lens)
+
+    def basis_vector(e):
+        # which knot vector the (single) self.basis call inside `e` uses
+        found = set()
+        for m in ast.walk(e):
+            if isinstance(m, ast.Call) and isinstance(m.func, ast.Attribute) and m.func.attr == "basis" and m.args:
+                a0 = m.args[0]
+                if isinstance(a0, ast.Attribute) and attrs.get(a0.attr, ("",))[0] == "knots":
+                    found.add(attrs[a0.attr][1])
+                else:
+                    raise TranslationError("self.basis on something that is not a stored knot vector")
+        if len(found) != 1:
+            raise TranslationError("a local mixes the two knot vectors")
+        return found.pop()
+
+    env = {}
+
+    def locals_of(stmts, lvl):
+        for st in stmts:
+            if not (isinstance(st, ast.Assign) and len(st.targets) == 1 and isinstance(st.targets[0], ast.Name)):
+                raise TranslationError("unsupported statement in the %s loop body" % lvl)
+            nm = st.targets[0].id
+            if nm in env or nm in names or nm == acc:
+                raise TranslationError("local %s assigned twice / shadows a name" % nm)
+            kn = basis_vector(st.value)
+            pt = {"tx": "x", "ty": "y"}[kn]
+            if lvl == "outer" and any(isinstance(m, ast.Name) and m.id == jvar for m in ast.walk(st.value)):
+                raise TranslationError("outer local uses the inner loop variable")
+            t = tr_for(kn, pt)
+            t.env = dict(env)
+            env[nm] = (t.rat(st.value), "rat")
+
+    locals_of(obody[:-1], "outer")
+    ibody = [st for st in inner.body if not _is_doc(st)]
+    if not ibody:
+        raise TranslationError("empty inner loop")
+    locals_of(ibody[:-1], "inner")
+    last = ibody[-1]
+    if not (isinstance(last, ast.AugAssign) and isinstance(last.op, ast.Add) and isinstance(last.target, ast.Name)
+            and last.target.id == acc):
+        raise TranslationError("the inner loop does not end with `z += …`")
+    if any(isinstance(m, ast.Call) for m in ast.walk(last.value) if isinstance(m, ast.Call)
+           and isinstance(m.func, ast.Attribute) and m.func.attr == "basis"):
+        raise TranslationError("self.basis inside the accumulated term")
+    t = _Tr({}, "0", None, names, rec=None, attrs={k: v for k, v in attrs.items() if v[0] != "knots"} | {
+        k: v for k, v in attrs.items() if v[0] == "knots"}, lens=lens)
+    t.env = dict(env)
+    term = t.rat(last.value)
+    return ivar, jvar, n_outer, n_inner, term
+
+
+CALL2D_TEMPLATE = """import RtcVerif.Gen.BSplineBasis
+/-!
+GENERATED on every run of the C20 check by harness/translate_c20.py from `BSpline2D.__call__`
+(src/rtctools/data/interpolation/bspline2d.py) in the tree under check.  Do not edit.
+-/
+namespace RtcVerif.Gen
+open RtcVerif
+
+def spline2dGen (tx : Nat → Rat) (nx : Nat) (ty : Nat → Rat) (ny : Nat) (w : Nat → Rat)
+    (kx ky : Nat) (x y : Rat) : Rat :=
+  C20.sumN %(n_outer)s (fun %(ivar)s => C20.sumN %(n_inner)s (fun %(jvar)s => %(term)s))
+
+theorem spline2dGen_eq_model (tx : Nat → Rat) (nx : Nat) (ty : Nat → Rat) (ny : Nat) (w : Nat → Rat)
+    (kx ky : Nat) (x y : Rat) :
+    spline2dGen tx nx ty ny w kx ky x y = C20.spline2d tx nx ty ny w kx ky x y := by
+  unfold spline2dGen C20.spline2d
+  apply C20.sumN_congr
+  intro %(ivar)s _
+  apply C20.sumN_congr
+  intro %(jvar)s _
+  simp only [basisGen_eq_model, C20.wbasis, Bool.and_eq_true, decide_eq_true_eq]
+  all_goals ring_nf
+
+end RtcVerif.Gen
+"""
+
+
+def _write_if_changed(path, text):
+    old = open(path).read() if os.path.exists(path) else None
+    if old != text:
+        tmp = path + ".tmp%d" % os.getpid()
+        with open(tmp, "w") as f:
+            f.write(text)
+        os.replace(tmp, path)
+
+
+def gen_bspline2d(c):
+    """(re)generate lean/RtcVerif/Gen/BSpline2D.lean (imports the generated BSplineBasis module)"""
+    path = os.path.join(LEAN_DIR, "RtcVerif", "Gen", "BSpline2D.lean")
+    try:
+        translate_basis()   # the module imports basisGen: without it there is nothing to state
+        ivar, jvar, n_outer, n_inner, term = translate_call2d()
+    except TranslationError as e:
+        c.broken.append(("translator: BSpline2D.__call__", str(e)))
+        return []
+    _write_if_changed(path, CALL2D_TEMPLATE % dict(ivar=ivar, jvar=jvar, n_outer=n_outer, n_inner=n_inner, term=term))
+    return [("RtcVerif.Gen.BSpline2D", "RtcVerif.Gen", ["spline2dGen_eq_model"])]
+
+
+# ---------------------------------------------------------------------------------------------
+# CSVLookupTableMixin.pre: the fit-cache decision
+#
+# Read from the source (anything else in the decision block is rejected):
+#
+#   if ini_config.read(ini_path): no_curvefit_options = False  else: … = True
+#                                                  no_curvefit_options  <->  F.ini = none   (frame check)
+#   tck_filename = filename.replace(".csv", ".npz")                 the cache file of the table
+#   valid_cache = False                                             false
+#   if os.path.exists(tck_filename): BODY                           match F.npz with | none => (state) | some m => BODY
+#   if no_curvefit_options: A else: B                               match F.ini with | none => A | some i => B
+#   os.path.getmtime(filename | tck_filename | ini_path)            F.csvM | m | i   (i only where F.ini = some i)
+#   a < b ; p and q ; (p)                                           decide (a < b) ; p && q
+#   if valid_cache: try: <np.load of the .npz, ca.Function.load of the .ca> except Exception: valid_cache = False
+#                                                                   if v then (if F.loadable then v else false) else v
+#   logger.*(…)                                                     ignored
+#   after the block: every `function = …` under `if not valid_cache:`, every `tck = …` under
+#   `if not valid_cache:` or `if tck is None:`, no other store to valid_cache, the loop body ends with
+#   `if not valid_cache: np.savez(<npz>, *tck); function.save(<ca>)`      recomputeGen / saveGen = !valid
+
+
+def _is_call_path(n, dotted):
+    """n is a call of the dotted name, e.g. os.path.exists"""
+    if not isinstance(n, ast.Call):
+        return False
+    f, parts = n.func, dotted.split(".")
+    for p in reversed(parts[1:]):
+        if not (isinstance(f, ast.Attribute) and f.attr == p):
+            return False
+        f = f.value
+    return isinstance(f, ast.Name) and f.id == parts[0]
+
+
+def _cache_file(n, ext, npz_name):
+    """n names the cache file with extension `ext`: filename.replace(".csv", ext) (or the npz local)"""
+    if ext == ".npz" and isinstance(n, ast.Name) and n.id == npz_name:
+        return True
+    return (isinstance(n, ast.Call) and isinstance(n.func, ast.Attribute) and n.func.attr == "replace"
+            and isinstance(n.func.value, ast.Name) and n.func.value.id == "filename" and len(n.args) == 2
+            and all(isinstance(a, ast.Constant) for a in n.args) and n.args[0].value == ".csv" and n.args[1].value == ext)
+
+
+def _is_logger(st):
+    return (isinstance(st, ast.Expr) and isinstance(st.value, ast.Call) and isinstance(st.value.func, ast.Attribute)
+            and isinstance(st.value.func.value, ast.Name) and st.value.func.value.id == "logger")
+
+
+class _CacheTr:
+    def __init__(self, npz_name):
+        self.npz = npz_name
+
+    def mtime(self, n, have_m, have_i):
+        if not (_is_call_path(n, "os.path.getmtime") and len(n.args) == 1 and not n.keywords):
+            raise TranslationError("unsupported operand in the cache test " + ast.dump(n)[:80])
+        a = n.args[0]
+        if isinstance(a, ast.Name) and a.id == "filename":
+            return "F.csvM"
+        if _cache_file(a, ".npz", self.npz):
+            if not have_m:
+                raise TranslationError("mtime of the cache read where it may not exist")
+            return "m"
+        if isinstance(a, ast.Name) and a.id == "ini_path":
+            if not have_i:
+                raise TranslationError("mtime of curvefit_options.ini read where the file may not exist")
+            return "i"
+        raise TranslationError("mtime of an unknown file")
+
+    def cond(self, n, have_m, have_i):
+        if isinstance(n, ast.Compare) and len(n.ops) == 1 and isinstance(n.ops[0], ast.Lt):
+            return "decide (%s < %s)" % (self.mtime(n.left, have_m, have_i), self.mtime(n.comparators[0], have_m, have_i))
+        if isinstance(n, ast.BoolOp) and isinstance(n.op, ast.And):
+            return "(" + " && ".join(self.cond(v, have_m, have_i) for v in n.values) + ")"
+        raise TranslationError("unsupported cache test " + ast.dump(n)[:80])
+
+    def block(self, stmts, v, have_m, have_i):
+        """returns the Lean term of valid_cache after the statements (v: term before)"""
+        for st in stmts:
+            if _is_logger(st) or _is_doc(st):
+                continue
+            if isinstance(st, ast.Assign) and len(st.targets) == 1 and isinstance(st.targets[0], ast.Name) \
+                    and st.targets[0].id == "valid_cache":
+                if isinstance(st.value, ast.Constant) and st.value.value is False:
+                    v = "false"
+                else:
+                    v = self.cond(st.value, have_m, have_i)
+                continue
+            if isinstance(st, ast.If):
+                t = st.test
+                if _is_call_path(t, "os.path.exists") and len(t.args) == 1 and _cache_file(t.args[0], ".npz", self.npz):
+                    if st.orelse or have_m:
+                        raise TranslationError("unsupported shape of the cache-exists test")
+                    v = "(match F.npz with | none => %s | some m => %s)" % (v, self.block(st.body, v, True, have_i))
+                    continue
+                if isinstance(t, ast.Name) and t.id == "no_curvefit_options":
+                    if have_i:
+                        raise TranslationError("nested no_curvefit_options test")
+                    v = "(match F.ini with | none => %s | some i => %s)" % (
+                        self.block(st.body, v, have_m, False), self.block(st.orelse, v, have_m, True))
+                    continue
+                if isinstance(t, ast.Name) and t.id == "valid_cache" and not st.orelse:
+                    v = "(if %s then %s else %s)" % (v, self.loads(st.body, v), v)
+                    continue
+            raise TranslationError("unsupported statement in the cache decision " + ast.dump(st)[:100])
+        return v
+
+    def loads(self, stmts, v):
+        body = [s for s in stmts if not _is_logger(s)]
+        if len(body) != 1 or not isinstance(body[0], ast.Try):
+            raise TranslationError("the loads of the cache are not a single try block")
+        tr = body[0]
+        if tr.orelse or tr.finalbody or len(tr.handlers) != 1:
+            raise TranslationError("unsupported try shape")
+        h = tr.handlers[0]
+        if not (isinstance(h.type, ast.Name) and h.type.id == "Exception" and len(h.body) == 1
+                and isinstance(h.body[0], ast.Assign) and len(h.body[0].targets) == 1
+                and isinstance(h.body[0].targets[0], ast.Name) and h.body[0].targets[0].id == "valid_cache"
+                and isinstance(h.body[0].value, ast.Constant) and h.body[0].value.value is False):
+            raise TranslationError("the handler is not `except Exception: valid_cache = False`")
+        seen = set()
+        for st in tr.body:
+            if isinstance(st, ast.With) and len(st.items) == 1 and _is_call_path(st.items[0].context_expr, "np.load") \
+                    and _cache_file(st.items[0].context_expr.args[0], ".npz", self.npz):
+                for s2 in st.body:
+                    if not (isinstance(s2, ast.Assign) and len(s2.targets) == 1 and isinstance(s2.targets[0], ast.Name)
+                            and s2.targets[0].id == "tck"):
+                        raise TranslationError("unsupported statement under np.load")
+                seen.add("npz")
+                continue
+            if isinstance(st, ast.Assign) and len(st.targets) == 1 and isinstance(st.targets[0], ast.Name) \
+                    and st.targets[0].id == "function" and _is_call_path(st.value, "ca.Function.load") \
+                    and _cache_file(st.value.args[0], ".ca", self.npz):
+                seen.add("ca")
+                continue
+            raise TranslationError("unsupported statement in the try block " + ast.dump(st)[:80])
+        if seen != {"npz", "ca"}:
+            raise TranslationError("the try block does not load both cache files")
+        return "(if F.loadable then %s else false)" % v
+
+
+def _guard_of(node, parents):
+    """chain of enclosing `if` tests (with polarity) of a node inside the loop body"""
+    out = []
+    cur = node
+    while id(cur) in parents:
+        par, field = parents[id(cur)]
+        if isinstance(par, ast.If):
+            out.append((par.test, field == "body"))
+        cur = par
+    return out
+
+
+def _is_not_valid(t):
+    return isinstance(t, ast.UnaryOp) and isinstance(t.op, ast.Not) and isinstance(t.operand, ast.Name) \
+        and t.operand.id == "valid_cache"
+
+
+def _is_tck_none(t):
+    return (isinstance(t, ast.Compare) and isinstance(t.left, ast.Name) and t.left.id == "tck" and len(t.ops) == 1
+            and isinstance(t.ops[0], ast.Is) and isinstance(t.comparators[0], ast.Constant) and t.comparators[0].value is None)
+
+
+def translate_fit_cache():
+    path = os.path.join(REPO, "src", "rtctools", "optimization", "csv_lookup_table_mixin.py")
+    pre = _find_method(ast.parse(open(path).read()), "CSVLookupTableMixin", "pre")
+    # frame: no_curvefit_options <-> the ini file could not be read
+    frame = None
+    for st in pre.body:
+        if isinstance(st, ast.If) and isinstance(st.test, ast.Call) and isinstance(st.test.func, ast.Attribute) \
+                and st.test.func.attr == "read" and len(st.test.args) == 1 and isinstance(st.test.args[0], ast.Name) \
+                and st.test.args[0].id == "ini_path":
+            def val(block):
+                vals = [s.value.value for s in block if isinstance(s, ast.Assign) and len(s.targets) == 1
+                        and isinstance(s.targets[0], ast.Name) and s.targets[0].id == "no_curvefit_options"
+                        and isinstance(s.value, ast.Constant)]
+                return vals[0] if len(vals) == 1 else None
+            frame = (val(st.body), val(st.orelse))
+    if frame != (False, True):
+        raise TranslationError("no_curvefit_options is not `not ini_config.read(ini_path)`")
+    n_assign = sum(1 for n in ast.walk(pre) if isinstance(n, ast.Assign) and any(
+        isinstance(t, ast.Name) and t.id == "no_curvefit_options" for t in n.targets))
+    if n_assign != 2:
+        raise TranslationError("no_curvefit_options assigned elsewhere")
+    loops = [st for st in pre.body if isinstance(st, ast.For) and isinstance(st.target, ast.Name) and st.target.id == "filename"]
+    if len(loops) != 1:
+        raise TranslationError("the loop over the table files was not found")
+    body = loops[0].body
+    # the decision block: from `tck_filename = filename.replace(".csv", ".npz")` to the first `if not valid_cache`
+    start = None
+    for j, st in enumerate(body):
+        if isinstance(st, ast.Assign) and len(st.targets) == 1 and isinstance(st.targets[0], ast.Name) \
+                and _cache_file(st.value, ".npz", None):
+            start, npz_name = j, st.targets[0].id
+    if start is None:
+        raise TranslationError("the cache file name assignment was not found")
+    end = None
+    for j in range(start + 1, len(body)):
+        if isinstance(body[j], ast.If) and _is_not_valid(body[j].test):
+            end = j
+            break
+    if end is None:
+        raise TranslationError("no `if not valid_cache` after the decision block")
+    valid = _CacheTr(npz_name).block(body[start + 1:end], "false", False, False)
+    # after the block: stores to valid_cache / function / tck and the final save
+    parents = {}
+    for st in body[end:]:
+        for par in ast.walk(st):
+            for field, value in ast.iter_fields(par):
+                if isinstance(value, list):
+                    for ch in value:
+                        if isinstance(ch, ast.AST):
+                            parents[id(ch)] = (par, field)
+                elif isinstance(value, ast.AST):
+                    parents[id(value)] = (par, field)
+    rec_guards = []
+    for st in body[end:]:
+        for n in ast.walk(st):
+            if isinstance(n, (ast.Assign, ast.AugAssign)):
+                tg = n.targets if isinstance(n, ast.Assign) else [n.target]
+                for t in tg:
+                    for m in ast.walk(t):
+                        if isinstance(m, ast.Name) and m.id == "valid_cache":
+                            raise TranslationError("valid_cache is assigned after the decision block")
+                        if isinstance(m, ast.Name) and m.id in ("function", "tck"):
+                            g = _guard_of(n, parents)
+                            ok = any(pos and (_is_not_valid(tst) or (m.id == "tck" and _is_tck_none(tst))) for tst, pos in g)
+                            if not ok:
+                                raise TranslationError("`%s` is recomputed outside `if not valid_cache`" % m.id)
+                            if m.id == "function":
+                                rec_guards.append(n)
+    if not rec_guards:
+        raise TranslationError("no recomputation of the table function found")
+    last = body[-1]
+    ok = isinstance(last, ast.If) and _is_not_valid(last.test) and not last.orelse and len(last.body) == 2
+    if ok:
+        s1, s2 = last.body
+        ok = (isinstance(s1, ast.Expr) and _is_call_path(s1.value, "np.savez") and _cache_file(s1.value.args[0], ".npz", npz_name)
+              and isinstance(s2, ast.Expr) and isinstance(s2.value, ast.Call) and isinstance(s2.value.func, ast.Attribute)
+              and s2.value.func.attr == "save" and isinstance(s2.value.func.value, ast.Name)
+              and s2.value.func.value.id == "function" and _cache_file(s2.value.args[0], ".ca", npz_name))
+    if not ok:
+        raise TranslationError("the loop body does not end with `if not valid_cache: np.savez(…); function.save(…)`")
+    return valid
+
+
+CACHE_TEMPLATE = """import RtcVerif.Model.C20BSpline
+/-!
+GENERATED on every run of the C20 check by harness/translate_c20.py from the fit-cache decision of
+`CSVLookupTableMixin.pre` (src/rtctools/optimization/csv_lookup_table_mixin.py).  Do not edit.
+-/
+namespace RtcVerif.Gen
+open RtcVerif
+
+/-- `valid_cache` as the source computes it -/
+def validCacheGen (F : C20.Files) : Bool :=
+  %(valid)s
+
+/-- the guard of every recomputation of the table function and of the final `np.savez` / `function.save` -/
+def recomputeGen (F : C20.Files) : Bool := !validCacheGen F
+
+theorem validCacheGen_eq_model (F : C20.Files) : validCacheGen F = C20.validCache F := by
+  rcases F with ⟨c, ini, npz, l⟩
+  cases npz <;> cases ini <;> cases l <;> simp [validCacheGen, C20.validCache] <;> first | omega | grind
+
+/-- the served fit is recomputed (and the cache rewritten) exactly when the model's `step … .pre` does so -/
+theorem recomputeGen_eq_model (F : C20.Files) : recomputeGen F = !C20.validCache F := by
+  rw [recomputeGen, validCacheGen_eq_model]
+
+end RtcVerif.Gen
+"""
+
+
+def gen_fit_cache(c):
+    path = os.path.join(LEAN_DIR, "RtcVerif", "Gen", "FitCache.lean")
+    try:
+        valid = translate_fit_cache()
+    except TranslationError as e:
+        c.broken.append(("translator: CSVLookupTableMixin.pre fit-cache decision", str(e)))
+        return []
+    _write_if_changed(path, CACHE_TEMPLATE % dict(valid=valid))
+    return [("RtcVerif.Gen.FitCache", "RtcVerif.Gen", ["validCacheGen_eq_model", "recomputeGen_eq_model"])]
